@@ -421,6 +421,81 @@ def inv_c07(model, real, ops, tier):
     return v, evals, None
 
 
+# ---- C07: file sizes around the checksum reader's buffer and read-size boundaries
+
+SIZES_Q = [65535, 65536, 65537, 200000, 2 * 1024 * 1024 + 1]
+SIZES_T = SIZES_Q + [1, 131072, 2 * 1024 * 1024, 4 * 1024 * 1024 + 5, 9 * 1024 * 1024]
+
+
+def big(size, seed=0):
+    unit = ("%d:" % seed + "0123456789abcdefghijklmnopqrstuvwxyz\n").encode()
+    return (unit * (size // len(unit) + 1))[:size]
+
+
+def size_task(task):
+    """A file of `size` bytes is pending (untracked / modified / staged) at `checkpoint update -p`;
+    afterwards single-byte edits at chosen offsets, an append and a truncation must each re-flag it."""
+    size, mode = task[0], task[1]
+    prop = task[2] if len(task) > 2 else "C07"
+    s = sc.Scratch("c07size")
+    try:
+        real = Real(s)
+        r = real.r
+        path = "b/big.bin" if mode != "modified" else "a/f.txt"
+        data = big(size)
+        if mode == "modified":
+            r.write(path, data)       # tracked file, new content, unstaged
+        elif mode == "staged":
+            r.write(path, data)
+            r.git("add", "-A")
+        else:
+            r.write(path, data)       # untracked
+        v = []
+        evals = 0
+
+        def targets():
+            if prop == "C02":
+                # C02 judges the reported change list itself (mapped back to the same shape)
+                d = r.mr("analyze", "--changes").json()
+                if d is None:
+                    return None
+                ch = [c["path"] for c in d.get("changes") or []]
+                return [] if not ch else (image([path]) if ch == [path] else ["<changes %s>" % ch])
+            d = r.mr("analyze").json()
+            return None if d is None else d.get("targets")
+        if r.mr("checkpoint", "update", "-p").code != 0:
+            raise common.EngineError("update -p failed")
+        t = targets()
+        evals += 1
+        if t != []:
+            v.append(("targets-after-pending-update", "%d-byte %s file pending at update -p: analyze reports %s" % (size, mode, t)))
+        want = image([path])
+        offs = sorted({0, size // 2, size - 1, min(size - 1, 65535), min(size - 1, 65536), min(size - 1, 2 * 1024 * 1024 - 1), min(size - 1, 2 * 1024 * 1024), min(size - 1, 2 * 1024 * 1024 + 1)})
+        edits = [("flip@%d" % o, data[:o] + bytes([data[o] ^ 1]) + data[o + 1:]) for o in offs]
+        edits.append(("append", data + b"!"))
+        if size > 1:
+            edits.append(("truncate-last", data[:-1]))
+        for name, newdata in edits:
+            r.write(path, newdata)
+            got = targets()
+            evals += 1
+            if got != want:
+                v.append(("large-file-edit-not-reflagged", "%d-byte %s file, edit %s after update -p: analyze reports %s, expected %s" % (size, mode, name, got, want)))
+            r.write(path, data)
+        got = targets()
+        evals += 1
+        if got != []:
+            v.append(("restored-file-still-flagged", "%d-byte %s file restored to its recorded content: analyze reports %s" % (size, mode, got)))
+        return {"violations": [{"sig": sig, "detail": d, "rank": 50 + len(str(size)), "case": {"size_case": [size, mode, prop]}} for sig, d in v],
+                "evals": evals, "obs": None, "nontrivial": 1}
+    except common.EngineError as e:
+        return {"engine_error": "%s (size case %s)" % (e, task)}
+    except Exception:
+        return {"engine_error": "size case %s: %s" % (task, traceback.format_exc()[-1200:])}
+    finally:
+        s.cleanup()
+
+
 def inv_c05(model, real, tier):
     v = []
     r = real.r
@@ -472,8 +547,8 @@ def state_task(task):
 
 
 RULES = {
-    "C02": "explicit-state BFS over operation sequences {write(p,c), delete(p), mv, git mv, add -A, commit, checkpoint update [-p] [--id k], checkpoint delete, out delete --all} on paths {a/f.txt, 'b/n e-acute.txt', b/m.txt}; state = (commits, index, worktree, checkpoint) with commit ids canonicalised to indices; each new state is materialised in a real repository (real git, real monorail) and, when a checkpoint exists, `analyze --changes` for the default range and every ordered pair of commits must equal the statement's set (content differs from base, plus untracked, minus pending-checksum matches), verbatim and sorted",
-    "C07": "same BFS; in every state reached by `checkpoint update -p`: analyze reports no targets and run starts nothing; then from that state every single later edit (fresh content for each path, new files, deletion of committed files; thorough: every pair) must re-flag exactly the targets of the edited paths, and a second update -p must clear them",
+    "C02": "plus the size family of C07 judged on the reported change list (a pending file edited beyond a buffer/read boundary must be listed, restored content must be filtered); explicit-state BFS over operation sequences {write(p,c), delete(p), mv, git mv, add -A, commit, checkpoint update [-p] [--id k], checkpoint delete, out delete --all} on paths {a/f.txt, 'b/n e-acute.txt', b/m.txt}; state = (commits, index, worktree, checkpoint) with commit ids canonicalised to indices; each new state is materialised in a real repository (real git, real monorail) and, when a checkpoint exists, `analyze --changes` for the default range and every ordered pair of commits must equal the statement's set (content differs from base, plus untracked, minus pending-checksum matches), verbatim and sorted",
+    "C07": "plus a size family: a pending file (untracked / modified / staged) of each size around the checksum buffer and read boundaries (65535..65537, 200000, 2 MiB+1; thorough more) must be clean after update -p and re-flagged by a one-byte edit at each boundary offset, an append and a truncation; same BFS; in every state reached by `checkpoint update -p`: analyze reports no targets and run starts nothing; then from that state every single later edit (fresh content for each path, new files, deletion of committed files; thorough: every pair) must re-flag exactly the targets of the edited paths, and a second update -p must clear them",
     "C19": "same BFS; in every state `checkpoint show` must equal what the last successful update printed (or fail when deleted / never set); updates must record HEAD or the given --id; without a checkpoint analyze reports checkpointed=false with every target and run covers every target",
     "C05": "same BFS (part B of C05): in every state `analyze --target-groups` then `run -c build` in trace mode must agree on groups and started targets",
 }
@@ -527,6 +602,16 @@ def bfs(prop, tier, depth, wall_cap=None):
             level += 1
             if len(agg["samples"]) < 4 and frontier:
                 agg["samples"].append({"ops": frontier[len(frontier) // 2][1]})
+    if prop in ("C07", "C02"):
+        sizes = SIZES_T if tier == "thorough" else SIZES_Q
+        tasks = [(sz, m, prop) for sz in sizes for m in ("untracked", "modified", "staged")]
+        for r in common.pmap(size_task, tasks):
+            if "engine_error" in r:
+                raise common.EngineError(r["engine_error"])
+            agg["evaluations"] += r["evals"]
+            agg["distinct_nontrivial"] += r["nontrivial"]
+            agg["violations"].extend(r["violations"])
+        agg["size_cases"] = len(tasks)
     agg["depth_completed"] = completed_depth
     agg["distinct_observations"] = len(observations)
     agg["alphabet"] = {k: v for k, v in alphabet.items()}
@@ -553,6 +638,18 @@ def run(prop, tier):
 
 def replay(prop, path):
     body = json.load(open(path))
+    if "size_case" in body["case"]:
+        r1 = size_task(tuple(body["case"]["size_case"]))
+        if "engine_error" in r1:
+            print("ENGINE:", r1["engine_error"])
+            return 2
+        if r1["violations"]:
+            for v in r1["violations"]:
+                print("REPLAY property=%s still violates: [%s] %s" % (prop, v["sig"], v["detail"][:400]))
+            print("VIOLATION property=%s replay=%s" % (prop, path))
+            return 1
+        print("REPLAY property=%s: case passes on the current tree" % prop)
+        return 0
     ops = body["case"]["ops"]
     r1 = state_task((prop, "quick", ops))
     r2 = state_task((prop, "quick", ops))
